@@ -747,3 +747,73 @@ func TestGovcReplay(t *testing.T) {
 		},
 	})
 }
+
+func init() {
+	harnesses = append(harnesses, &harness{
+		name: "xDS endpoint assignment replay (two localities, real cluster manager)",
+		match: func(o *Obligation) bool {
+			return o.Kind == "post" && strings.Contains(o.Func, "conv.(*xdsConverter).ConvertUpdateEndpoints")
+		},
+		run: func(eng *Engine, o *Obligation) *ReplayOutcome {
+			src := `package conv
+
+import (
+	"context"
+	"fmt"
+	"testing"
+
+	envoy_config_cluster_v3 "github.com/envoyproxy/go-control-plane/envoy/config/cluster/v3"
+	envoy_config_core_v3 "github.com/envoyproxy/go-control-plane/envoy/config/core/v3"
+	envoy_config_endpoint_v3 "github.com/envoyproxy/go-control-plane/envoy/config/endpoint/v3"
+	"mosn.io/mosn/pkg/upstream/cluster"
+)
+
+func govcLocality(ip string) *envoy_config_endpoint_v3.LocalityLbEndpoints {
+	return &envoy_config_endpoint_v3.LocalityLbEndpoints{LbEndpoints: []*envoy_config_endpoint_v3.LbEndpoint{{
+		HostIdentifier: &envoy_config_endpoint_v3.LbEndpoint_Endpoint{Endpoint: &envoy_config_endpoint_v3.Endpoint{
+			Address: &envoy_config_core_v3.Address{Address: &envoy_config_core_v3.Address_SocketAddress{SocketAddress: &envoy_config_core_v3.SocketAddress{
+				Protocol: envoy_config_core_v3.SocketAddress_TCP, Address: ip,
+				PortSpecifier: &envoy_config_core_v3.SocketAddress_PortValue{PortValue: 80}}}}}},
+	}}}
+}
+
+// The refuted postcondition says: an assignment with several localities issues several host updates
+// (each replacing the previous one) instead of one carrying the union. Replay through the real cluster
+// manager: two localities with one endpoint each; the cluster must end up with both hosts.
+func TestGovcReplay(t *testing.T) {
+	cvt := NewConverter()
+	name := "govcReplayCluster"
+	cvt.ConvertUpdateClusters([]*envoy_config_cluster_v3.Cluster{{
+		Name:                 name,
+		ClusterDiscoveryType: &envoy_config_cluster_v3.Cluster_Type{Type: envoy_config_cluster_v3.Cluster_EDS},
+		EdsClusterConfig:     &envoy_config_cluster_v3.Cluster_EdsClusterConfig{EdsConfig: &envoy_config_core_v3.ConfigSource{}},
+		LbPolicy:             envoy_config_cluster_v3.Cluster_ROUND_ROBIN,
+	}})
+	cla := &envoy_config_endpoint_v3.ClusterLoadAssignment{ClusterName: name,
+		Endpoints: []*envoy_config_endpoint_v3.LocalityLbEndpoints{govcLocality("10.1.0.1"), govcLocality("10.2.0.1")}}
+	if err := cvt.ConvertUpdateEndpoints([]*envoy_config_endpoint_v3.ClusterLoadAssignment{cla}); err != nil {
+		fmt.Println("REPLAY-NOT-REPRODUCED update failed:", err)
+		return
+	}
+	snap := cluster.GetClusterMngAdapterInstance().GetClusterSnapshot(context.Background(), name)
+	if snap == nil {
+		fmt.Println("REPLAY-NOT-REPRODUCED no snapshot")
+		return
+	}
+	n := snap.HostSet().Size()
+	var addrs []string
+	for i := 0; i < n; i++ {
+		addrs = append(addrs, snap.HostSet().Get(i).AddressString())
+	}
+	if n != 2 {
+		fmt.Printf("REPLAY-CONFIRMED assignment with 2 localities (one endpoint each) leaves the cluster with %d host(s): %v\n", n, addrs)
+	} else {
+		fmt.Println("REPLAY-NOT-REPRODUCED", addrs)
+	}
+}
+`
+			out, _ := runOverlayTest("istio/istio1106/xds/conv", src, "^TestGovcReplay$")
+			return outcomeFromOutput(src, out)
+		},
+	})
+}
